@@ -369,7 +369,7 @@ func newEnv(c *suiteCtx, cfg proxyCfg) (*testEnv, error) {
 			}
 			e.redisMu.Lock()
 			kind, ok := e.redisFault[strings.ToUpper(cmd)]
-			if ok && kind != "always" && kind != "drop-always" { // "always": the command keeps failing for the whole request (e.g. a read-only replica refusing writes)
+			if ok && kind != "always" && kind != "drop-always" && kind != "hang-always" { // "always": the command keeps failing for the whole request (e.g. a read-only replica refusing writes)
 				delete(e.redisFault, strings.ToUpper(cmd))
 			}
 			e.redisMu.Unlock()
@@ -381,7 +381,7 @@ func newEnv(c *suiteCtx, cfg proxyCfg) (*testEnv, error) {
 				p.Close()
 				return true
 			}
-			if kind == "hang" {
+			if kind == "hang" || kind == "hang-always" { // "hang-always": every attempt of the command stalls (a retrying client gets no further)
 				// the server stalls on this command: nothing is executed, the client gives up after its read timeout
 				wait := 3500 * time.Millisecond
 				if cfg.RedisReadTimeout > 0 {
